@@ -1,5 +1,7 @@
 import ColoVerif.Model.DetSearch
 import ColoVerif.Proofs.DetOpt
+import ColoVerif.Proofs.DetPlaceCan
+import ColoVerif.Proofs.DetPlaceLegal
 /-
 Facts about the candidate enumeration of the local search (Model/DetSearch.lean):
 
@@ -8,7 +10,11 @@ Facts about the candidate enumeration of the local search (Model/DetSearch.lean)
 * every pass (`runSwaps`, `runInserts` and all their helpers) that returns `.ok (q, ops)` yields a
   `SearchTrace p ops q`: the ghost list `ops` is a sequence of primitive moves, each one *chosen by the
   acceptance rule* on the placer it is applied to, feasible there, and accepted by `Placer.step`;
-  in particular `p.run ops = .ok q`.
+  in particular `p.run ops = .ok q`;
+* no-error results on placements that satisfy `Inv`, with `nbNeighbours ≥ 0`: the windowed passes
+  (`runSwapsOneRow`, `runSwapsTwoRows`, `runInsertsOneRow`, `runInsertsTwoRows`), the one-row sweep
+  of `runSwaps` and the whole of `runInserts` never return an error and keep `Inv`.  (The amplified
+  two-row swap pass can only be shown not to run out of fuel on synchronised placers; not done here.)
 -/
 namespace ColoVerif.DetPlace
 open State
@@ -348,5 +354,435 @@ theorem runSwaps_run {p q : Placer} {a b : Int} {ops : List Op}
 
 theorem runInserts_run {p q : Placer} {a b : Int} {ops : List Op}
     (h : p.runInserts a b = .ok (q, ops)) : p.run ops = .ok q := (runInserts_trace h).run
+
+/-! ### (d) the windowed passes never fail on `Inv` placements -/
+
+/-- the candidate kept by the scan is the initial one or one of the candidates -/
+theorem scan_mem {cur : Int} {eval : Int → Option Int} {cands : List Int} {best : Option Int} {b : Int}
+    (e : scan cur eval cands best = some b) : best = some b ∨ b ∈ cands := by
+  induction cands generalizing best with
+  | nil => left; simpa [scan] using e
+  | cons cand rest ih =>
+    unfold scan at e
+    split at e
+    · split at e
+      · rcases ih e with h | h
+        · injection h with h; right; rw [h]; exact List.mem_cons_self
+        · right; exact List.mem_cons_of_mem _ h
+      · rcases ih e with h | h
+        · left; exact h
+        · right; exact List.mem_cons_of_mem _ h
+    · rcases ih e with h | h
+      · left; exact h
+      · right; exact List.mem_cons_of_mem _ h
+
+theorem bestSwapChoice_mem {p : Placer} {c b : Int} {cands : List Int}
+    (h : p.bestSwapChoice c cands = some b) : b ∈ cands := by
+  unfold Placer.bestSwapChoice at h
+  rcases scan_mem h with h | h
+  · cases h
+  · exact h
+
+theorem bestInsertChoice_mem {p : Placer} {c r b : Int} {cands : List Int}
+    (h : p.bestInsertChoice c r cands = some b) : b ∈ cands := by
+  unfold Placer.bestInsertChoice at h
+  rcases scan_mem h with h | h
+  · cases h
+  · exact h
+
+/-- liveness of a cell only depends on the number of cells and on the widths -/
+theorem liveCell_congr {s t : State} (hn : t.nCells = s.nCells) (hw : t.width = s.width) (c : Int) :
+    t.liveCell c = s.liveCell c := by
+  rw [Bool.eq_iff_iff, liveCell_iff, liveCell_iff]
+  unfold validCell
+  rw [hn, hw]
+
+/-- a feasible swap of two live cells is accepted by the whole-object step; the invariant, the rows and
+the liveness of every cell are kept -/
+theorem Placer.step_swap_ok {p : Placer} (h : Inv p.pl) {c b : Int} (hc : p.pl.liveCell c = true)
+    (hb : p.pl.liveCell b = true) (hcan : p.pl.canSwap c b = .ok true) :
+    ∃ q, p.step (.swap c b) = .ok q ∧ Inv q.pl ∧ q.pl.rows = p.pl.rows ∧
+      ∀ d, q.pl.liveCell d = p.pl.liveCell d := by
+  obtain ⟨t, e⟩ := swap_succeeds h hc hb hcan
+  refine ⟨((p.withPl t).updateCell c).updateCell b, ?_, swap_inv h hc hb e, (Lg.swap_keep e).1, ?_⟩
+  · simp only [Placer.step, hc, hb, Bool.and_self, if_true, Placer.doSwap, e]
+  · exact liveCell_congr (Lg.swap_keep e).2.1 (swap_frame hc hb e).1
+
+/-- a feasible insertion of a live cell at a site the optimiser may name is accepted by the
+whole-object step; only the moved cell changes row -/
+theorem Placer.step_insert_ok {p : Placer} (h : Inv p.pl) {c r b : Int} (hc : p.pl.liveCell c = true)
+    (hs : p.pl.siteOk r b = true) (hcan : p.pl.canInsert c r b = .ok true) :
+    ∃ q, p.step (.insert c r b) = .ok q ∧ Inv q.pl ∧ q.pl.rows = p.pl.rows ∧
+      (∀ d, q.pl.liveCell d = p.pl.liveCell d) ∧ ∀ d, q.pl.row d = if d = c then r else p.pl.row d := by
+  obtain ⟨t, e⟩ := insert_succeeds h hc hs hcan
+  refine ⟨(p.withPl t).updateCell c, ?_, insert_inv h hc hs e, (Lg.insert_keep e).1, ?_, Lg.insert_rows e⟩
+  · simp only [Placer.step, hc, hs, Bool.and_self, if_true, Placer.doInsert, e]
+  · exact liveCell_congr (Lg.insert_keep e).2.1 (insert_frame hc e).1
+
+/-- the invariant of the swap passes: `Inv`, the rows are `R`, the snapshot cells are live -/
+def LiveInv (R : List Row) (cells : List Int) (p : Placer) : Prop :=
+  Inv p.pl ∧ p.pl.rows = R ∧ ∀ c ∈ cells, p.pl.liveCell c = true
+
+/-- the invariant of the insertion passes: `Inv`, the rows are `R`, the moved cells are live, the
+entries of the destination snapshot are `-1` or live cells of the destination row -/
+def RowInv (R : List Row) (cells : List Int) (dest : List Int) (row : Int) (p : Placer) : Prop :=
+  Inv p.pl ∧ p.pl.rows = R ∧ (∀ c ∈ cells, p.pl.liveCell c = true) ∧
+  ∀ b ∈ dest, b = -1 ∨ (p.pl.liveCell b = true ∧ p.pl.row b = row)
+
+theorem bestSwap_ok {R : List Row} {cells : List Int} {p : Placer} (h : LiveInv R cells p) {c : Int}
+    {cands : List Int} (hc : c ∈ cells) (hs : ∀ b ∈ cands, b ∈ cells) :
+    ∃ r, p.bestSwap c cands = .ok r ∧ LiveInv R cells r.1 := by
+  unfold Placer.bestSwap
+  split
+  · exact ⟨_, rfl, h⟩
+  · rename_i b hch
+    obtain ⟨q, e, hi, hrows, hl⟩ := Placer.step_swap_ok h.1 (h.2.2 c hc)
+      (h.2.2 b (hs b (bestSwapChoice_mem hch))) (bestSwapChoice_canSwap hch)
+    rw [e]
+    exact ⟨_, rfl, hi, hrows.trans h.2.1, fun d hd => by rw [hl]; exact h.2.2 d hd⟩
+
+theorem bestInsert_ok {R : List Row} {cells dest : List Int} {row : Int} {p : Placer}
+    (h : RowInv R cells dest row p) (hR : 0 ≤ row ∧ row < (R.length : Int)) {c : Int} {cands : List Int}
+    (hc : c ∈ cells) (hs : ∀ b ∈ cands, b ∈ dest) :
+    ∃ r, p.bestInsert c row cands = .ok r ∧ RowInv R cells dest row r.1 := by
+  unfold Placer.bestInsert
+  split
+  · exact ⟨_, rfl, h⟩
+  · rename_i b hch
+    obtain ⟨hi, hrows, hl, hd⟩ := h
+    have hsite : p.pl.siteOk row b = true := by
+      rw [siteOk_iff]
+      refine ⟨by unfold validRow nRows; rw [hrows]; exact hR, ?_⟩
+      rcases hd b (hs b (bestInsertChoice_mem hch)) with h1 | h1
+      · exact .inl h1
+      · exact .inr ⟨((liveCell_iff _ _).1 h1.1).1, h1.2⟩
+    obtain ⟨q, e, hi', hrows', hl', hrow⟩ :=
+      Placer.step_insert_ok hi (hl c hc) hsite (bestInsertChoice_canInsert hch)
+    rw [e]
+    refine ⟨_, rfl, hi', hrows'.trans hrows, fun d hd' => by rw [hl']; exact hl d hd', fun d hd' => ?_⟩
+    rcases hd d hd' with h1 | h1
+    · exact .inl h1
+    · right
+      refine ⟨by rw [hl']; exact h1.1, ?_⟩
+      rw [hrow]
+      split
+      · rfl
+      · exact h1.2
+
+/-- a loop whose body succeeds and keeps an invariant succeeds and keeps it -/
+theorem loopOps_ok {α : Type} {body : Placer → α → Pass} {I : Placer → Prop} {as : List α}
+    (hb : ∀ q a, a ∈ as → I q → ∃ r, body q a = .ok r ∧ I r.1) {p : Placer} (hp : I p) :
+    ∃ r, loopOps body p as = .ok r ∧ I r.1 := by
+  induction as generalizing p with
+  | nil => exact ⟨_, rfl, hp⟩
+  | cons a rest ih =>
+    obtain ⟨r1, e1, h1⟩ := hb p a List.mem_cons_self hp
+    obtain ⟨r2, e2, h2⟩ := ih (fun q a' ha' => hb q a' (List.mem_cons_of_mem _ ha')) h1
+    refine ⟨(r2.1, r1.2 ++ r2.2), ?_, h2⟩
+    unfold loopOps
+    simp only [e1, e2]
+
+theorem andThen_ok {x : Pass} {f : Placer → Pass} {I J : Placer → Prop}
+    (hx : ∃ r, x = .ok r ∧ I r.1) (hf : ∀ q, I q → ∃ r, f q = .ok r ∧ J r.1) :
+    ∃ r, x.andThen f = .ok r ∧ J r.1 := by
+  obtain ⟨r1, e1, h1⟩ := hx
+  obtain ⟨r2, e2, h2⟩ := hf r1.1 h1
+  refine ⟨(r2.1, r1.2 ++ r2.2), ?_, h2⟩
+  unfold Pass.andThen
+  simp only [e1, e2]
+
+theorem mem_indexed {cells : List Int} {ic : Int × Int} (h : ic ∈ indexed cells) :
+    0 ≤ ic.1 ∧ ic.1 < cells.length ∧ ic.2 ∈ cells := by
+  unfold indexed at h
+  obtain ⟨ci, hci, rfl⟩ := List.mem_map.1 h
+  obtain ⟨_, h2, h3⟩ := List.mem_zipIdx (x := ci.1) (i := ci.2) hci
+  refine ⟨by simp, by simp at h2 ⊢; omega, ?_⟩
+  simp only []
+  rw [h3]
+  exact List.getElem_mem _
+
+theorem mem_indexed_tail {a : Int} {cells : List Int} {ic : Int × Int}
+    (h : ic ∈ (indexed (a :: cells)).drop 1) :
+    0 ≤ ic.1 ∧ ic.1 < (a :: cells).length ∧ ic.2 ∈ cells := by
+  unfold indexed at h
+  rw [List.zipIdx_cons, List.map_cons, List.drop_one, List.tail_cons] at h
+  obtain ⟨ci, hci, rfl⟩ := List.mem_map.1 h
+  obtain ⟨h1, h2, h3⟩ := List.mem_zipIdx (x := ci.1) (i := ci.2) hci
+  refine ⟨by simp, by simp at h2 ⊢; omega, ?_⟩
+  simp only []
+  rw [h3]
+  exact List.getElem_mem _
+
+/-- the window of an index inside the snapshot (or one past its end) is a well-formed slice when
+`nbNeighbours ≥ 0` -/
+theorem window_ok {cells : List Int} {i nb : Int} (hnb : 0 ≤ nb) (h0 : 0 ≤ i) (h1 : i ≤ cells.length) :
+    ∃ cands, window cells i nb = .ok cands ∧ ∀ b ∈ cands, b ∈ cells := by
+  unfold window slice
+  have : ¬ (max 0 (i - nb) > min (cells.length : Int) (i + nb + 1)) := by omega
+  rw [if_neg this]
+  exact ⟨_, rfl, fun b hb => List.mem_of_mem_drop (List.mem_of_mem_take hb)⟩
+
+/-- `closest` stays a valid index of `row2Cells` -/
+theorem closestGo_lt (s : State) (row2 : List Int) (x : Int) (f k : Nat) (hk : k < row2.length) :
+    closestGo s row2 x f k < row2.length := by
+  induction f generalizing k with
+  | zero => exact hk
+  | succ f ih =>
+    unfold closestGo
+    split
+    · exact hk
+    · split
+      · exact hk
+      · exact ih (k + 1) (by omega)
+
+theorem closestAll_lt (s : State) (row2 : List Int) (k : Nat) (row1 : List Int) (hk : k < row2.length) :
+    ∀ v ∈ closestAll s row2 k row1, 0 ≤ v ∧ v < (row2.length : Int) := by
+  induction row1 generalizing k with
+  | nil => intro v hv; cases hv
+  | cons c1 rest ih =>
+    intro v hv
+    unfold closestAll at hv
+    have hlt := closestGo_lt s row2 (s.x c1) row2.length k hk
+    rcases List.mem_cons.1 hv with h | h
+    · subst h
+      simp only [Int.ofNat_eq_natCast]
+      omega
+    · exact ih _ hlt v h
+
+theorem computeClosestIndexInRow_le (s : State) (row1 row2 : List Int) :
+    ∀ v ∈ s.computeClosestIndexInRow row1 row2, 0 ≤ v ∧ v ≤ (row2.length : Int) := by
+  intro v hv
+  unfold computeClosestIndexInRow at hv
+  split at hv
+  · have := List.eq_of_mem_replicate hv
+    subst this
+    exact ⟨Int.le_refl _, Int.natCast_nonneg _⟩
+  · rename_i hne
+    have hpos : 0 < row2.length := List.length_pos_iff.2 hne
+    have := closestAll_lt s row2 0 row1 hpos v hv
+    omega
+
+/-- the cells of a valid row of a state that satisfies `Inv` are live cells of that row -/
+theorem rowCells_live {s : State} (h : Inv s) {r : Int} (hr : s.validRow r) :
+    ∀ c ∈ s.rowCells r, s.liveCell c = true ∧ s.row c = r := by
+  intro c hc
+  obtain ⟨vc, hrow⟩ := ((rowCells_spec h hr).1 c).1 hc
+  rw [liveCell_iff]
+  have C := h.cell vc
+  unfold CellOk at C
+  unfold validRow at hr
+  exact ⟨⟨vc, (C.2 (by omega)).1⟩, hrow⟩
+
+/-- `-1 :: rowCells(row)`: every entry is `-1` or a live cell of the row -/
+theorem rowCells_dest {s : State} (h : Inv s) {r : Int} (hr : s.validRow r) :
+    ∀ b ∈ -1 :: s.rowCells r, b = -1 ∨ (s.liveCell b = true ∧ s.row b = r) := by
+  intro b hb
+  rcases List.mem_cons.1 hb with h1 | h1
+  · exact .inl h1
+  · exact .inr (rowCells_live h hr b h1)
+
+theorem validRow_bounds {s : State} {r : Int} (hr : s.validRow r) : 0 ≤ r ∧ r < (s.rows.length : Int) := hr
+
+/-- **`runSwapsOneRow` never fails** on a valid row of a placement that satisfies `Inv` when
+`nbNeighbours ≥ 0`; it keeps `Inv` and the rows -/
+theorem runSwapsOneRow_no_error {p : Placer} (h : Inv p.pl) {row nb : Int} (hr : p.pl.validRow row)
+    (hnb : 0 ≤ nb) :
+    ∃ q ops, p.runSwapsOneRow row nb = .ok (q, ops) ∧ Inv q.pl ∧ q.pl.rows = p.pl.rows ∧
+      SearchTrace p ops q := by
+  have hp : LiveInv p.pl.rows (p.pl.rowCells row) p := ⟨h, rfl, fun c hc => (rowCells_live h hr c hc).1⟩
+  obtain ⟨r, e, hi⟩ := loopOps_ok (body := Placer.swapsOneRowBody (p.pl.rowCells row) nb)
+    (I := LiveInv p.pl.rows (p.pl.rowCells row)) (as := indexed (p.pl.rowCells row))
+    (fun q ic hic hq => by
+      obtain ⟨h0, h1, h2⟩ := mem_indexed hic
+      obtain ⟨cands, ew, hs⟩ := window_ok hnb h0 (Int.le_of_lt h1)
+      unfold Placer.swapsOneRowBody
+      rw [ew]
+      exact bestSwap_ok hq h2 hs) hp
+  exact ⟨r.1, r.2, e, hi.1, hi.2.1, runSwapsOneRow_trace e⟩
+
+/-- **`runSwapsTwoRows` never fails** on two valid rows (`nbNeighbours ≥ 0`) -/
+theorem runSwapsTwoRows_no_error {p : Placer} (h : Inv p.pl) {r1 r2 nb : Int} (hr1 : p.pl.validRow r1)
+    (hr2 : p.pl.validRow r2) (hnb : 0 ≤ nb) :
+    ∃ q ops, p.runSwapsTwoRows r1 r2 nb = .ok (q, ops) ∧ Inv q.pl ∧ q.pl.rows = p.pl.rows ∧
+      SearchTrace p ops q := by
+  have hp : LiveInv p.pl.rows (p.pl.rowCells r1 ++ p.pl.rowCells r2) p :=
+    ⟨h, rfl, fun c hc => by
+      rcases List.mem_append.1 hc with h1 | h1
+      · exact (rowCells_live h hr1 c h1).1
+      · exact (rowCells_live h hr2 c h1).1⟩
+  obtain ⟨r, e, hi⟩ := loopOps_ok (body := Placer.swapsTwoRowsBody (p.pl.rowCells r2) nb)
+    (I := LiveInv p.pl.rows (p.pl.rowCells r1 ++ p.pl.rowCells r2))
+    (as := (p.pl.rowCells r1).zip (p.pl.computeClosestIndexInRow (p.pl.rowCells r1) (p.pl.rowCells r2)))
+    (fun q cc hcc hq => by
+      have hm := List.of_mem_zip (a := cc.1) (b := cc.2) hcc
+      obtain ⟨h0, h1⟩ := computeClosestIndexInRow_le _ _ _ _ hm.2
+      obtain ⟨cands, ew, hs⟩ := window_ok hnb h0 h1
+      unfold Placer.swapsTwoRowsBody
+      rw [ew]
+      exact bestSwap_ok hq (List.mem_append_left _ hm.1) (fun b hb => List.mem_append_right _ (hs b hb))) hp
+  exact ⟨r.1, r.2, e, hi.1, hi.2.1, runSwapsTwoRows_trace e⟩
+
+/-- **`runInsertsOneRow` never fails** on a valid row (`nbNeighbours ≥ 0`) -/
+theorem runInsertsOneRow_no_error {p : Placer} (h : Inv p.pl) {row nb : Int} (hr : p.pl.validRow row)
+    (hnb : 0 ≤ nb) :
+    ∃ q ops, p.runInsertsOneRow row nb = .ok (q, ops) ∧ Inv q.pl ∧ q.pl.rows = p.pl.rows ∧
+      SearchTrace p ops q := by
+  have hp : RowInv p.pl.rows (p.pl.rowCells row) (-1 :: p.pl.rowCells row) row p :=
+    ⟨h, rfl, fun c hc => (rowCells_live h hr c hc).1, rowCells_dest h hr⟩
+  obtain ⟨r, e, hi⟩ := loopOps_ok (body := Placer.insertsOneRowBody (-1 :: p.pl.rowCells row) row nb)
+    (I := RowInv p.pl.rows (p.pl.rowCells row) (-1 :: p.pl.rowCells row) row)
+    (as := (indexed (-1 :: p.pl.rowCells row)).drop 1)
+    (fun q ic hic hq => by
+      obtain ⟨h0, h1, h2⟩ := mem_indexed_tail hic
+      obtain ⟨cands, ew, hs⟩ := window_ok hnb h0 (Int.le_of_lt h1)
+      unfold Placer.insertsOneRowBody
+      rw [ew]
+      exact bestInsert_ok hq (validRow_bounds hr) h2 hs) hp
+  exact ⟨r.1, r.2, e, hi.1, hi.2.1, runInsertsOneRow_trace e⟩
+
+/-- **`runInsertsTwoRows` never fails** on two valid rows (`nbNeighbours ≥ 0`) -/
+theorem runInsertsTwoRows_no_error {p : Placer} (h : Inv p.pl) {r1 r2 nb : Int} (hr1 : p.pl.validRow r1)
+    (hr2 : p.pl.validRow r2) (hnb : 0 ≤ nb) :
+    ∃ q ops, p.runInsertsTwoRows r1 r2 nb = .ok (q, ops) ∧ Inv q.pl ∧ q.pl.rows = p.pl.rows ∧
+      SearchTrace p ops q := by
+  have hp : RowInv p.pl.rows (p.pl.rowCells r1) (-1 :: p.pl.rowCells r2) r2 p :=
+    ⟨h, rfl, fun c hc => (rowCells_live h hr1 c hc).1, rowCells_dest h hr2⟩
+  obtain ⟨r, e, hi⟩ := loopOps_ok (body := Placer.insertsTwoRowsBody (-1 :: p.pl.rowCells r2) r2 nb)
+    (I := RowInv p.pl.rows (p.pl.rowCells r1) (-1 :: p.pl.rowCells r2) r2)
+    (as := (p.pl.rowCells r1).zip
+      (p.pl.computeClosestIndexInRow (p.pl.rowCells r1) (-1 :: p.pl.rowCells r2)))
+    (fun q cc hcc hq => by
+      have hm := List.of_mem_zip (a := cc.1) (b := cc.2) hcc
+      obtain ⟨h0, h1⟩ := computeClosestIndexInRow_le _ _ _ _ hm.2
+      obtain ⟨cands, ew, hs⟩ := window_ok hnb h0 h1
+      unfold Placer.insertsTwoRowsBody
+      rw [ew]
+      exact bestInsert_ok hq (validRow_bounds hr2) hm.1 hs) hp
+  exact ⟨r.1, r.2, e, hi.1, hi.2.1, runInsertsTwoRows_trace e⟩
+
+/-- the invariant of the sweeps over rows -/
+def SweepInv (R : List Row) (p : Placer) : Prop := Inv p.pl ∧ p.pl.rows = R
+
+theorem validRow_of_rows {s : State} {R : List Row} (hrows : s.rows = R) {r : Int}
+    (h : 0 ≤ r ∧ r < (R.length : Int)) : s.validRow r := by
+  unfold validRow nRows; rw [hrows]; exact h
+
+/-- the first loop of `runSwaps` (every row internally) never fails -/
+theorem runSwaps_oneRowSweep_no_error {p : Placer} (h : Inv p.pl) {nb : Int} (hnb : 0 ≤ nb) :
+    ∃ r, loopOps (fun q i => q.runSwapsOneRow i nb) p (intsUpTo p.pl.nRows) = .ok r ∧
+      SweepInv p.pl.rows r.1 := by
+  refine loopOps_ok (I := SweepInv p.pl.rows) (fun q i hi hq => ?_) ⟨h, rfl⟩
+  rw [mem_intsUpTo] at hi
+  obtain ⟨q', ops, e, hi', hrows, _⟩ := runSwapsOneRow_no_error hq.1 (validRow_of_rows hq.2 hi) hnb
+  exact ⟨(q', ops), e, hi', hrows.trans hq.2⟩
+
+theorem mem_insertDists {nbRows d : Int} (h : d ∈ Placer.insertDists nbRows) : 1 ≤ d := by
+  unfold Placer.insertDists at h
+  obtain ⟨k, _, rfl⟩ := List.mem_map.1 h
+  have := Int.natCast_nonneg k
+  simp only [Int.ofNat_eq_natCast]
+  omega
+
+theorem mem_insertPairsUp {n : Nat} {nbRows : Int} {ij : Int × Int} (h : ij ∈ Placer.insertPairsUp n nbRows) :
+    (0 ≤ ij.1 ∧ ij.1 < (n : Int)) ∧ (0 ≤ ij.2 ∧ ij.2 < (n : Int)) := by
+  unfold Placer.insertPairsUp at h
+  obtain ⟨d, hd, h⟩ := List.mem_flatMap.1 h
+  obtain ⟨i, hi, rfl⟩ := List.mem_map.1 h
+  obtain ⟨hi1, hi2⟩ := List.mem_filter.1 hi
+  rw [mem_intsUpTo] at hi1
+  have := mem_insertDists hd
+  have := of_decide_eq_true hi2
+  simp only []
+  omega
+
+theorem mem_insertPairsDown {n : Nat} {nbRows : Int} {ij : Int × Int}
+    (h : ij ∈ Placer.insertPairsDown n nbRows) :
+    (0 ≤ ij.1 ∧ ij.1 < (n : Int)) ∧ (0 ≤ ij.2 ∧ ij.2 < (n : Int)) := by
+  unfold Placer.insertPairsDown at h
+  obtain ⟨d, hd, h⟩ := List.mem_flatMap.1 h
+  obtain ⟨i, hi, rfl⟩ := List.mem_map.1 h
+  obtain ⟨hi1, hi2⟩ := List.mem_filter.1 hi
+  rw [List.mem_reverse, mem_intsUpTo] at hi1
+  have := mem_insertDists hd
+  have := of_decide_eq_true hi2
+  simp only []
+  omega
+
+/-- **`runInserts` never fails** on a placement that satisfies `Inv` when `nbNeighbours ≥ 0` (any
+`nbRows`); it keeps `Inv`, and its moves form a trace -/
+theorem runInserts_no_error {p : Placer} (h : Inv p.pl) (nbRows : Int) {nb : Int} (hnb : 0 ≤ nb) :
+    ∃ q ops, p.runInserts nbRows nb = .ok (q, ops) ∧ Inv q.pl ∧ q.pl.rows = p.pl.rows ∧
+      SearchTrace p ops q := by
+  have h1 : ∃ r, loopOps (fun q i => q.runInsertsOneRow i nb) p (intsUpTo p.pl.nRows) = .ok r ∧
+      SweepInv p.pl.rows r.1 := by
+    refine loopOps_ok (I := SweepInv p.pl.rows) (fun q i hi hq => ?_) ⟨h, rfl⟩
+    rw [mem_intsUpTo] at hi
+    obtain ⟨q', ops, e, hi', hrows, _⟩ := runInsertsOneRow_no_error hq.1 (validRow_of_rows hq.2 hi) hnb
+    exact ⟨(q', ops), e, hi', hrows.trans hq.2⟩
+  obtain ⟨r, e, hi⟩ := andThen_ok (J := SweepInv p.pl.rows)
+    (f := fun q => loopOps (fun q' ij => q'.runInsertsTwoRows ij.1 ij.2 nb) q
+      (Placer.insertPairsUp q.pl.nRows nbRows ++ Placer.insertPairsDown q.pl.nRows nbRows)) h1 (fun q hq => by
+    refine loopOps_ok (I := SweepInv p.pl.rows) (fun q' ij hij hq' => ?_) hq
+    have hb : (0 ≤ ij.1 ∧ ij.1 < (p.pl.rows.length : Int)) ∧ (0 ≤ ij.2 ∧ ij.2 < (p.pl.rows.length : Int)) := by
+      have hn : q.pl.nRows = p.pl.rows.length := by unfold nRows; rw [hq.2]
+      rw [← hn]
+      rcases List.mem_append.1 hij with h2 | h2
+      · exact mem_insertPairsUp h2
+      · exact mem_insertPairsDown h2
+    obtain ⟨q'', ops, e, hi', hrows, _⟩ := runInsertsTwoRows_no_error hq'.1
+      (validRow_of_rows hq'.2 hb.1) (validRow_of_rows hq'.2 hb.2) hnb
+    exact ⟨(q'', ops), e, hi', hrows.trans hq'.2⟩)
+  have e' : p.runInserts nbRows nb = .ok (r.1, r.2) := e
+  exact ⟨r.1, r.2, e', hi.1, hi.2, runInserts_trace e'⟩
+
+/-! ### non-vacuity -/
+
+/-- two movable cells and a fixed one in one row, one net (the instance of Properties/C05 `exC`) -/
+def exSearch1 : Circuit :=
+  { cells := [⟨2, 2, 0, 0, .N, false, false, .ANY⟩, ⟨3, 2, 4, 0, .N, false, false, .ANY⟩,
+              ⟨1, 1, 12, 0, .N, true, false, .ANY⟩],
+    nets := [⟨1, 0, [⟨0, 0, 0⟩, ⟨2, 0, 0⟩]⟩], rows := [⟨⟨0, 10, 0, 2⟩, .N⟩] }
+
+/-- three movable cells in two stacked rows, two nets -/
+def exSearch2 : Circuit :=
+  { cells := [⟨2, 2, 0, 0, .N, false, false, .ANY⟩, ⟨3, 2, 4, 2, .N, false, false, .ANY⟩,
+              ⟨1, 1, 12, 3, .N, true, false, .ANY⟩, ⟨2, 2, 6, 0, .N, false, false, .ANY⟩],
+    nets := [⟨1, 0, [⟨0, 0, 0⟩, ⟨2, 0, 0⟩]⟩, ⟨1, 0, [⟨1, 0, 0⟩, ⟨3, 0, 0⟩]⟩],
+    rows := [⟨⟨0, 10, 0, 2⟩, .N⟩, ⟨⟨0, 10, 2, 4⟩, .N⟩] }
+
+/-- the pass `f` on `Placer.init c` succeeds, performs exactly `ops` and ends with value `v` -/
+def passIs (c : Circuit) (f : Placer → Pass) (ops : List Op) (v : Int) : Bool :=
+  match Placer.init c with
+  | .error _ => false
+  | .ok p =>
+    match f p with
+    | .error _ => false
+    | .ok r => r.2 == ops && r.1.value == v
+
+example : passIs exSearch1 (·.runSwaps 1 1) [.swap 0 1] 9 = true := by decide
+example : passIs exSearch1 (·.runInserts 1 1) [.insert 0 0 1] 5 = true := by decide
+/-- two rows: the amplified two-row pass swaps across rows -/
+example : passIs exSearch2 (·.runSwaps 1 1) [.swap 0 1] 14 = true := by decide
+example : passIs exSearch2 (·.runSwapsTwoRows 0 1 2) [.swap 0 1, .swap 3 1] 11 = true := by decide
+example : passIs exSearch2 (·.runInserts 1 1) [.insert 0 0 3, .insert 3 1 1] 10 = true := by decide
+/-- a negative `nbNeighbours` is refused (ill-formed slice in the C++) -/
+example : (match Placer.init exSearch1 with
+    | .ok p => (match p.runSwaps 1 (-1) with
+      | .error .guard => true
+      | _ => false)
+    | .error _ => false) = true := by decide
+
+/-- `runSwaps_trace` is not vacuous -/
+example : ∃ p q, Placer.init exSearch1 = .ok p ∧ SearchTrace p [.swap 0 1] q ∧ q.value = 9 := by
+  have h : passIs exSearch1 (·.runSwaps 1 1) [.swap 0 1] 9 = true := by decide
+  unfold passIs at h
+  split at h
+  · cases h
+  · rename_i p e0
+    split at h
+    · cases h
+    · rename_i r e1
+      simp only [Bool.and_eq_true, beq_iff_eq] at h
+      exact ⟨p, r.1, e0, h.1 ▸ runSwaps_trace (q := r.1) (ops := r.2) e1, h.2⟩
 
 end ColoVerif.DetPlace
